@@ -8,7 +8,7 @@ Open Scope Z_scope.
 
 Lemma good_geo cp s : cap_ok cp -> good_slot cp s -> geo cp s.
 Proof. intros Hc G. pose proof (good_span _ _ G) as (A & B).
-  destruct G as (G0 & G8 & Gl & Gs & Gstr & Gk). unfold geo. repeat split; auto.
+  destruct G as (G0 & G8 & Gl & Gs & Gstr & Gk & _). unfold geo. repeat split; auto.
   destruct (is_pad s).
   - destruct Gk as (-> & _). cbn [length]. lia.
   - destruct Gk as (_ & E). pose proof (align8_bounds (s_len s)). lia. Qed.
@@ -100,7 +100,7 @@ Proof. intros W. pose proof (wf_cap _ W) as Hc. pose proof (wf_tiled _ W) as T. 
     rewrite E in T. unfold render. rewrite E.
     rewrite (word_at_len (r_cap st) (r_head st) (r_tail st) pre r s (render_trailer st) Hc T Hsz (trailer_clear st)).
     rewrite (word_at_type (r_cap st) (r_head st) (r_tail st) pre r s (render_trailer st) Hc T Hsz (trailer_clear st)).
-    pose proof G as (_ & _ & Gl & Gs & _ & Gk).
+    pose proof G as (_ & _ & Gl & Gs & _ & Gk & _).
     replace (s_len s <=? 0) with false by lia. rewrite <- Gs.
     assert (E2 : r_slots st = (pre ++ [s]) ++ r) by (rewrite <- app_assoc; exact E).
     cbn [length] in Hf.
@@ -161,7 +161,7 @@ Proof. induction l as [| [[t n] p] l IH]; cbn [cmsgs_eqb cmsg_eqb]; [reflexivity
   assert (Z : forall q, zs_eqb q q = true) by (induction q; cbn [zs_eqb]; [reflexivity | rewrite Z.eqb_refl; assumption]).
   rewrite Z. reflexivity. Qed.
 
-Lemma abs_pad_slots tl pd : abs_slots (pad_slots tl pd 0 0) = [].
+Lemma abs_pad_slots tl pd ow sq : abs_slots (pad_slots tl pd ow sq) = [].
 Proof. unfold pad_slots. destruct (pd =? 0); [reflexivity |]. cbn [abs_slots flat_map].
   unfold is_pad, pad_slot. cbn [s_type]. rewrite Z.eqb_refl. reflexivity. Qed.
 
